@@ -8,12 +8,16 @@ RULE = ("harness/h_threads.cc (mode stop), TSan and ASan/UBSan builds: rapidchec
         "calls notifyStop() on the live solver object or notifyGlobalStop(); the solver thread records whether check() had started / "
         "finished when the request landed. Oracle: the result is unknown or the solo answer; no ThreadSanitizer / ASan / UBSan report. "
         "Non-trivial = request that landed while check() was executing; the evidence reports the landing histogram "
-        "(before / during / after check).")
-ASSUMPTIONS = ["wall-clock delays place the request; the landing point is measured, not assumed", "TSan happens-before race detection"]
+        "(before / during / after check). Mode stopk (the harness owns the schedule): the instance is solved by a SimpSMTSolver subclass "
+        "whose notifyConsistency() hook (the one the parallel splitter uses) blocks at the K-th consistent point of the search, K drawn "
+        "from 1..8, until the stopper thread has issued its request - the request thus lands between the search loop's own stop checks "
+        "and the next (possibly final, complete) theory check; integer-arithmetic instances are drawn most often. Same oracle; "
+        "non-trivial = request issued at a consistent point (not after the answer).")
+ASSUMPTIONS = ["mode stop: wall-clock delays place the request; the landing point is measured, not assumed", "mode stopk: requests are placed at consistent points only", "TSan happens-before race detection"]
 
 
 def custom_run(tier, seed):
-    return thrcommon.run(ID, "stop", tier, seed, 400, 6000)
+    return thrcommon.run(ID, ["stop", "stopk"], tier, seed, 400, 6000)
 
 
 def custom_replay(path):
